@@ -217,3 +217,8 @@ def register(reg, prog):
                 ('deleted', ev('result_.code == 66', result_=result))]
     reg.contract(RR + '.render_delete', self_class='RegistrationResource', params={'request': MSG}, result=MSG, properties=P, only_raises=True,
                  at_exit=rdel_exit, modifies=['*'])
+
+
+def bounded(tier, seed):
+    from specs.c20_history import bounded as b
+    return b(tier, seed)
